@@ -116,8 +116,8 @@ def d1_farthest(ck):
                              'frame-0/rank-0 default must be guarded by an empty centre list')
                     continue
                 if role == 'owner':
-                    ok = isinstance(v, ast.Call) and call_name(v) in ('np.argmax',) and \
-                        len(v.args) == 1 and _is_allgather_of(fi2, v.args[0], 'max', dparam)
+                    ok = isinstance(v, ast.Call) and isinstance(v.func, ast.Attribute) and v.func.attr == 'argmax' and \
+                        not v.args and _is_allgather_of(fi2, v.func.value, 'max', dparam)
                     ck.check(ok, rule, mod, site, '_kcenters_iteration_mpi', u(site),
                              'owner = argmax over all-gathered local maxima of distances',
                              'owner rank of the next centre must be argmax of the '
